@@ -513,8 +513,10 @@ impl Engine for E5 {
             match cfg.weighted(&[20, 80]) {
                 0 => None,
                 _ => {
-                    if focus == "C13" && cfg.chance(1, 40) {
-                        // a large buffer (Unix sockets carry far more than a UDP datagram)
+                    if (focus == "C13" || (focus == "C12" && sink != SinkKind::BufUdp)) && cfg.chance(1, 40) {
+                        // a large buffer (Unix sockets carry far more than a UDP datagram); for C12
+                        // on the sinks that carry such a datagram (agent10-C12: an inner buffer
+                        // smaller than the configured one splits a line at 64 KiB)
                         Some(*cfg.pick(&[9000usize, 66_000, 131_072]))
                     } else {
                         Some(*cfg.pick(&[0usize, 1, 8, 16, 24, 32, 64, 100, 1432]))
@@ -554,10 +556,16 @@ impl Engine for E5 {
         let capv = cap.unwrap_or(512);
         let mut next_id = 0u32;
         let mut tasks = Vec::new();
-        let big_ok = focus == "C13" && !buffered && tier == Tier::Thorough || (focus == "C13" && !buffered && cfg.chance(1, 30));
+        // (C14: metrics beyond the UDP datagram limit on the unbuffered UDP sink — refused, and the
+        // refusal must be counted: agent10-C14)
+        let big_ok = focus == "C13" && !buffered && tier == Tier::Thorough || (focus == "C13" && !buffered && cfg.chance(1, 30)) || (focus == "C14" && sink == SinkKind::Udp && cfg.chance(1, 25));
         for _ in 0..n_tasks {
             let n = 1 + prog.usize_below(if deep { 16 } else { 8 });
             let mut ops = Vec::new();
+            // nominal fill of the buffer if this task were alone and nothing failed: lets the
+            // generator aim at exact fits (what is held + the metric, with or without its
+            // terminator, == capacity), also after a flush that may have failed (agent10-C13)
+            let mut fill = 0usize;
             for _ in 0..n {
                 let w_flush = if buffered { 18 } else { 3 };
                 match prog.weighted(&[70, w_flush, if focus == "C14" { 8 } else { 0 }, 6]) {
@@ -567,13 +575,14 @@ impl Engine for E5 {
                             // beyond the UDP datagram limit through the buffered sink's bypass path
                             *prog.pick(&[65_507usize, 65_508, 66_000])
                         } else if buffered {
-                            match prog.weighted(&[40, 15, 15, 10, 10, 10]) {
+                            match prog.weighted(&[40, 15, 15, 10, 10, 10, 12]) {
                                 0 => 1 + prog.usize_below(capv.clamp(1, 20)),
                                 1 => capv.saturating_sub(1),
                                 2 => capv,
                                 3 => capv + 1 + prog.usize_below(30),
                                 4 => capv / 2,
-                                _ => prog.usize_below(12),
+                                5 => prog.usize_below(12),
+                                _ => capv.saturating_sub(fill + prog.usize_below(2)),
                             }
                         } else if big_ok && prog.chance(1, 6) {
                             *prog.pick(&[65_507usize, 65_508, 65_506, 9000])
@@ -587,10 +596,24 @@ impl Engine for E5 {
                         };
                         let wide = prog.chance(1, 3) && !via_client;
                         let ws = !wide && !buffered && !via_client && prog.chance(1, 4);
-                        ops.push(NOp::Emit { len: len.max(min), id: next_id, wide, ws });
+                        let l = len.max(min);
+                        fill = if l + 1 > capv {
+                            0
+                        } else if fill + l + 1 > capv {
+                            l + 1
+                        } else {
+                            fill + l + 1
+                        };
+                        ops.push(NOp::Emit { len: l, id: next_id, wide, ws });
                         next_id += 1;
                     }
-                    1 => ops.push(NOp::Flush),
+                    1 => {
+                        // (a third of the time the generator assumes the flush fails: data retained)
+                        if !prog.chance(1, 3) {
+                            fill = 0;
+                        }
+                        ops.push(NOp::Flush)
+                    }
                     2 => ops.push(NOp::Stats),
                     _ => ops.push(NOp::Yield),
                 }
@@ -943,8 +966,12 @@ fn judge(case: &NetCase, obs: &Obs, end_tasks: &[TaskInfo], out: &mut Outcome, w
                     // C13's second sentence ("send what remains when flushed or dropped") keeps
                     // its conservation clauses even after a refused send; the rest is C07's
                     let remains = matches!(v.clause.as_str(), "linebuf.flush-ok-but-still-buffered" | "linebuf.drop-left-metrics-unwritten" | "linebuf.bypass-not-written" | "linebuf.ok-despite-failure");
+                    // ... and its first half: "datagrams of the form described in C05" is said of
+                    // every datagram a buffered socket sink sends, also of those after a refused
+                    // send (agent10-C13; the same reading as C05's own, §5.2)
+                    let framing = v.props.iter().any(|p| p == "C05");
                     v.props.retain(|p| p != "C13" && p != "C05" && p != "C06" && p != "C19");
-                    if remains {
+                    if remains || framing {
                         v.props.push("C13".into());
                     }
                     if !v.props.iter().any(|p| p == "C07") {
@@ -987,6 +1014,9 @@ fn judge(case: &NetCase, obs: &Obs, end_tasks: &[TaskInfo], out: &mut Outcome, w
                     let mut p = vec!["C12".to_string()];
                     if faulty {
                         p.push("C07".to_string());
+                        if socket_sink && v.props.iter().any(|p| p == "C05") {
+                            p.push("C13".to_string());
+                        }
                     } else if socket_sink {
                         p.push("C13".to_string());
                     }
@@ -994,7 +1024,11 @@ fn judge(case: &NetCase, obs: &Obs, end_tasks: &[TaskInfo], out: &mut Outcome, w
                 }
             } else if faulty {
                 for v in out.violations[before..].iter_mut() {
+                    let framing = socket_sink && v.props.iter().any(|p| p == "C05");
                     v.props = vec!["C07".to_string()];
+                    if framing {
+                        v.props.push("C13".to_string());
+                    }
                 }
             } else if socket_sink {
                 for v in out.violations[before..].iter_mut() {
